@@ -22,7 +22,12 @@ CTX_A = {
 CTX_B = dict(CTX_A, um=None, ue=None, specials=[['~', S()], ['--', S()], ['---', S()]])
 CTX_C = {'macros': [['m', S('m')], ['d', S('d<>')], ['r', S('r[]')], ['v', S('v')]], 'envs': [['e', S('m'), False]],
          'specials': [], 'um': S('o1'), 'ue': [S('s'), True]}
-CONTEXTS = {'A': CTX_A, 'B': CTX_B, 'C': CTX_C, 'default': 'default'}
+# expression arguments that do not accept leading whitespace (a non-default flag of the standard argument parser):
+# the Lean context type has no such kind, these contexts are exercised by the oracles only
+CTX_D = {'macros': [['p', S('m', 'm0')], ['q', S('m0')], ['pm', S(['m0', '+'], 'm')], ['z', S()]],
+         'envs': [['en', S('m0'), False]], 'specials': [['~', S()], ['!', S('m0')]], 'um': S(), 'ue': [S(), False]}
+CONTEXTS = {'A': CTX_A, 'B': CTX_B, 'C': CTX_C, 'D': CTX_D, 'default': 'default'}
+ATOMS_D = ['a', ' ', '\n', '{', '}', '[', '$', '%c\n', '~', '!', '\\p', '\\q', '\\pm', '\\z', '\\begin{en}', '\\end{en}', '\\', '\\(', '\\)', '\\begin', '\t']
 
 ATOMS_DEFAULT = ['a', ' ', '\n', '{', '}', '[', ']', '$', '%', '~', '\\', '\\(', '\\)', '\\[', '\\]', '\\\\',
                  '\\x', '\\begin', '\\end', '\\begin{e}', '\\end{e}', '\\frac', '\\textbf', '\\sqrt', '*',
@@ -36,6 +41,8 @@ ATOMS_CUSTOM = ['a', ' ', '\n', '{', '}', '[', ']', '(', ')', '<', '>', '$', '%'
 CORE_ATOMS = ['a', ' ', '\n', '{', '}', '[', ']', '$', '%', '\\', '\\(', '\\)', '\\[', '\\]', '\\\\', '\\x', '\\begin{e}', '\\end{e}', '\\frac', '*', '$$', '\\verb', '~', '\\begin', '\\textbf']
 
 def atoms_for(ctxname):
+    if ctxname == 'D':
+        return ATOMS_D
     return ATOMS_DEFAULT if ctxname == 'default' else ATOMS_CUSTOM
 
 def soup(rng, atoms, maxlen=10):
